@@ -17,6 +17,8 @@ const repoMod = "github.com/evanoberholster/imagemeta"
 
 var verifDir = "/verif"
 
+var overlayProp string // lower-case property id selecting the harness files, "" = all
+
 var overlayFiles = map[string][]byte{} // virtual path under /repo -> content
 
 var pkgClause = regexp.MustCompile(`(?m)^package\s+(\w+)`)
@@ -37,6 +39,11 @@ func buildOverlay(extra map[string][]byte) (map[string][]byte, error) {
 		}
 		rel, _ := filepath.Rel(root, p)
 		if strings.HasPrefix(rel, "_") {
+			return nil
+		}
+		// only the harness files of the property being checked (zz_verif_<id>*.go) and shared ones (zz_verif_common*.go)
+		base := strings.ToLower(filepath.Base(rel))
+		if overlayProp != "" && !strings.HasPrefix(base, "zz_verif_"+overlayProp) && !strings.HasPrefix(base, "zz_verif_common") {
 			return nil
 		}
 		b, err := os.ReadFile(p)
